@@ -4,19 +4,22 @@ import random
 
 FAMILY = 'Merkle'
 DRIVER = 'merkle'
-HOOK_COMMITS = ['d74fb0d']  # verif hook: H1 worker-count override for merkle.GetMerkleRoot
+HOOK_COMMITS = ['d74fb0d', 'fee3185']  # H1 worker-count override for merkle.GetMerkleRoot; H1b observe the chunk size used
 
 PROPS = {
     'C18': dict(
         text='TLA+ transcriptions of the sequential duplicate-last root, the padded chunked parallel root (worker count as a '
              'parameter), the constant-space root/branch/mutated computation, branch verification and the per-chain '
              'multi-layer root, over a free hash constructor H(l,r)=<<l,r>>. TLC checks for every leaf count up to the bound '
-             'and every worker count at which the chunk size changes: parallel = sequential = constant-space root; every '
+             'and every worker count at which the chunk size changes: parallel = sequential = constant-space root (also with the '
+             'chunk-size cap and the sequential threshold scaled down so that the capped regime lies inside the bounds, and for '
+             'leaf counts around every regime boundary 256w..4096w of the real constants); every '
              '(small n) or edge (large n) position\'s branch verifies; for every pair of lists of a bounded domain equal '
              'roots imply identical lists or a duplicated-tail expansion whose longer member is flagged; for every tagged '
              'transaction list up to the bound the child chains tile the list and every two-level proof verifies. TLC exports '
              'the expected tree shapes; the Go replayer evaluates them with real double SHA-256 and compares '
-             'GetMerkleRoot (every worker count via hook H1), Computation, GetMerkleBranch, GetMerkleRootFromBranch, '
+             'GetMerkleRoot (every worker count via hook H1; the chunk size really used is observed via hook H1b and must be a power '
+             'of two, the specification\'s assumption), Computation, GetMerkleBranch, GetMerkleRootFromBranch, '
              'CalcMerkleRoot, CalcMerkleRootCache and CalcMultiLayerMerkleInfo; seeded recordings of the real functions '
              '(duplicated tails, near misses, lists above the chunking threshold) are validated by the trace specification.',
         note='Hash collision freedom of double SHA-256 is assumed (free constructor). Leaf counts are bounded (quick 160, '
@@ -31,7 +34,7 @@ PROPS = {
 
 def cfg_mc(maxn, stride, maxw, branch_all, export_all=0, export_ns=()):
     return ('SPECIFICATION Spec\nCONSTANTS\n  MaxN = %d\n  Stride = %d\n  MaxW = %d\n  BranchAll = %d\n  ExportAll = %d\n  ExportNs = {%s}\n'
-            'INVARIANTS ParEqSeq CompEqSeq BranchOK NoFlag DupFlag Export\nCHECK_DEADLOCK FALSE\n'
+            'INVARIANTS ParEqSeq ScaledParEqSeq CapMustBePow2 CompEqSeq BranchOK DupFlag Export\nCHECK_DEADLOCK FALSE\n'
             % (maxn, stride, maxw, branch_all, export_all, ', '.join(str(x) for x in sorted(export_ns))))
 
 
@@ -117,7 +120,22 @@ def run(ctx):
     if not shapes or not pairs or not ml or not mb:
         raise vlib.Broken('an export is empty')
 
+    # 3b. the chunk-size regime boundaries of the code's real constants: leaf counts around 256w .. 4096w
+    rws = (2, 3, 4, 16) if q else (2, 3, 4, 5, 8, 16)
+    nw = sorted({(n, w) for w in rws for n in (256 * w - 1, 256 * w, 256 * w + 1, 512 * w, 512 * w + 1, 1024 * w - 1, 1024 * w,
+                                                1024 * w + 37, 2048 * w + 1, 4096 * w + 3)})
+    ctx.write_cfg(st, 'Merkle_RegimeMC.tla', '---- MODULE Merkle_RegimeMC ----\nEXTENDS Merkle_Regime\nMCPairs == {%s}\n====\n'
+                  % ', '.join('<<%d, %d>>' % x for x in nw))
+    ctx.write_cfg(st, 'regime.cfg', 'SPECIFICATION Spec\nCONSTANTS\n  NW <- MCPairs\n  ExportMax = %d\n'
+                  'INVARIANTS RegimeEq Chunked Export\nCHECK_DEADLOCK FALSE\n' % (2200 if q else 4200))
+    rg = behaviours(ctx.tlc_mc('Merkle_RegimeMC', 'regime.cfg', workers=W, timeout=TO, stage=st), 'r')
+    if len(rg) != len(nw):
+        raise vlib.Broken('regime export incomplete: %d of %d' % (len(rg), len(nw)))
+    for x in rg:
+        x['id'] = 'regime-n%d-w%d' % (x['steps'][-1]['n'], x['steps'][-1]['w'])
+
     b = vlib.build(DRIVER)
+    ctx.replay(b, rg, opts=dict(salt=3), par=8, timeout=3000)
     ctx.replay(b, shapes, opts=dict(salt=1), par=8, timeout=3000)
     if not q:
         ctx.replay(b, shapes, opts=dict(salt=2), par=8, timeout=3000, count=False)
@@ -137,7 +155,7 @@ def run(ctx):
         ctx.replay(b, sw2, opts=dict(salt=ctx.seed), par=8, timeout=3000, count=False)
         ctx.extra['sweep_beyond_tlc_bound'] = dict(ns=len(beyond), note='implementation-vs-implementation only')
     ctx.exhaustive = False
-    ctx.extra['exported'] = dict(shapes=len(shapes), pair_behaviours=len(pairs), multi=len(ml), multi_big=len(mb), sweeps=len(sw))
+    ctx.extra['exported'] = dict(shapes=len(shapes), pair_behaviours=len(pairs), multi=len(ml), multi_big=len(mb), sweeps=len(sw), regime_pairs=len(rg))
 
     # 5. recordings of the real code validated by the trace specification
     ctx.validate_recording(b, 'Merkle_Trace', 'Merkle_Trace.cfg', opts=dict(n=12 if q else 60, big=3), selftest=True, timeout=TO)
